@@ -945,6 +945,21 @@ pub fn negatives(ctx: &mut Ctx, prop: &str) {
                 m.extern_values.insert(pos, ExternValue::new(Visibility::Public, "ev", arg_type(&mut rng), Attributes(if rng.coin() { vec![] } else { vec![Attribute::size(4)] })));
                 must_reject(ctx, prop, "extern-value-without-address", vec![(ItemPath::from("kneg_m"), m)], *rng.pick(&[4, 8]));
             }
+            // addresses that are no addresses, and singleton attributes in shapes nobody reads
+            for (kind, text) in [
+                ("extern-value-negative-address", "#[address(-16)] pub extern g: u32;"),
+                ("enum-singleton-negative-address", "#[singleton(-16), copyable] pub enum E: u32 { A = 0, }"),
+                ("type-singleton-negative-address", "#[singleton(-16)] pub type T { pub a: u32, }"),
+                ("enum-singleton-two-arguments", "#[singleton(1, 2), copyable] pub enum E: u32 { A = 0, }"),
+                ("enum-singleton-assignment", "#[singleton = 16, copyable] pub enum E: u32 { A = 0, }"),
+                ("enum-singleton-string", "#[singleton(\"16\"), copyable] pub enum E: u32 { A = 0, }"),
+                ("extern-value-address-string", "#[address(\"16\")] pub extern g: u32;"),
+                ("extern-value-address-two-arguments", "#[address(16, 32)] pub extern g: u32;"),
+            ] {
+                if let Ok(m) = pyxis::parser::parse_str(text) {
+                    must_reject(ctx, prop, kind, vec![(ItemPath::from("kneg_m"), m)], 8);
+                }
+            }
         }
         _ => {}
     }
